@@ -9,7 +9,6 @@ import (
 	"fmt"
 	"os"
 	"os/exec"
-	"path/filepath"
 	"runtime"
 	"strings"
 	"sync/atomic"
@@ -61,6 +60,15 @@ type Case struct {
 	Fails []bool `json:"fails,omitempty"`
 	// comm
 	COps []CommOp `json:"cops,omitempty"`
+	// tear: a session of NProc processes ends as Role/Outcome/Phase say; its teardown is parked
+	// inside CloseSession (At = 0) or inside Stop of process At-1, a second request for the same
+	// session id arrives there
+	At int `json:"at,omitempty"`
+	// commw: broadcasts to several peers with scripted NewStream / write / Close failures
+	WOps []WOp `json:"wops,omitempty"`
+	// racecomm: Workers goroutines x Rounds session lifetimes on one real Libp2pCommunication, in a
+	// child process built with -race
+	Workers int `json:"workers,omitempty"`
 }
 
 type Round struct {
@@ -96,6 +104,15 @@ type Obs struct {
 	Rounds []Round `json:"rounds,omitempty"`
 	// comm
 	CObs []CObs `json:"cobs,omitempty"`
+	// tear
+	Tear *TearObs `json:"tear,omitempty"`
+	// commw
+	WObs []WObs `json:"wobs,omitempty"`
+	// commw: for every stream the host handed out: does its first write fail
+	WFirstFail []bool `json:"wfirstfail,omitempty"`
+	// racecomm: data race reports (incl. "fatal error: concurrent map ..."), subscriptions left in
+	// the table, streams handed out by the host and never closed, sessions run
+	RC *RaceCommObs `json:"rc,omitempty"`
 }
 
 // ---- environment --------------------------------------------------------------------------------
@@ -111,12 +128,20 @@ type env struct {
 	tracker *tssfakes.LiveTracker
 }
 
-func newEnv() *env {
+func newEnv() *env { return newEnvComm(nil) }
+
+// newEnvComm: wrap (if not nil) puts a layer between the coordinator and the recording
+// Communication (the tear cases park CloseSession in it).
+func newEnvComm(wrap func(*tssfakes.RecComm) comm.Communication) *env {
 	led := tssfakes.NewLedger()
 	cm := tssfakes.NewRecComm(peers[0], led)
 	h := tssfakes.NewFakeHost(peers[0], peers)
 	ef := elector.NewCoordinatorElectorFactory(h, relayer.BullyConfig{})
-	c := tss.NewCoordinator(h, cm, ef)
+	var cc comm.Communication = cm
+	if wrap != nil {
+		cc = wrap(cm)
+	}
+	c := tss.NewCoordinator(h, cc, ef)
 	c.CoordinatorTimeout, c.TssTimeout, c.InitiatePeriod = long, long, long
 	e := &env{c: c, comm: cm, led: led, tracker: tssfakes.NewLiveTracker()}
 	e.answerInitiate()
@@ -662,20 +687,9 @@ func raceChild(rounds int) {
 }
 
 func runRace(c Case) Obs {
-	work := os.Getenv("VERIF_WORK")
-	dir := os.Getenv("VERIF_DIR")
-	if work == "" || dir == "" {
-		return Obs{Note: "no VERIF_WORK/VERIF_DIR: race run skipped"}
-	}
-	exe := filepath.Join(work, "implrun_race")
-	bctx, bcancel := context.WithTimeout(context.Background(), 10*time.Minute)
-	defer bcancel()
-	cmd := exec.CommandContext(bctx, "go", "build", "-race", "-modfile", filepath.Join(work, "go.mod"), "-tags", "verif",
-		"-overlay", filepath.Join(work, "overlay.json"), "-o", exe, "./cmd/c09")
-	cmd.Dir = filepath.Join(dir, "harness")
-	cmd.Env = os.Environ()
-	if out, err := cmd.CombinedOutput(); err != nil {
-		return Obs{Note: "race build failed: " + tail(string(out), 400)}
+	exe, note := buildRace()
+	if exe == "" {
+		return Obs{Note: note}
 	}
 	// (bounded: a child that hangs on a changed implementation is killed; what it printed so far counts)
 	rctx, rcancel := context.WithTimeout(context.Background(), 90*time.Second+time.Duration(c.Rounds)*200*time.Millisecond)
@@ -684,13 +698,12 @@ func runRace(c Case) Obs {
 	run.WaitDelay = 5 * time.Second
 	run.Env = append(os.Environ(), fmt.Sprintf("VERIF_C09_RACE_CHILD=%d", c.Rounds), "GORACE=halt_on_error=0 exitcode=66")
 	out, err := run.CombinedOutput()
-	races := strings.Count(string(out), "WARNING: DATA RACE")
+	races, first := raceReports(string(out))
 	o := Obs{MaxLive: []int{races}}
 	if err != nil && races == 0 {
 		o.Note = "race child failed: " + tail(string(out), 400)
 	} else if races > 0 {
-		i := strings.Index(string(out), "WARNING: DATA RACE")
-		o.Note = tail(string(out)[i:min(len(out), i+900)], 900)
+		o.Note = first
 	}
 	return o
 }
@@ -718,6 +731,12 @@ func run(c Case) Obs {
 		return runStorm(c)
 	case "comm":
 		return runComm(c)
+	case "tear":
+		return runTear(c)
+	case "commw":
+		return runCommW(c)
+	case "racecomm":
+		return runRaceComm(c)
 	}
 	panic("unknown kind " + c.Kind)
 }
@@ -880,6 +899,32 @@ func gen(r *vgen.Rng, tier string) []Case {
 		}
 		out = append(out, c)
 	}
+	// admission versus teardown: every way a session can end x 1..3 processes x every point at which
+	// its teardown can be parked (inside CloseSession, inside Stop of each process)
+	for np := 1; np <= 3; np++ {
+		for _, role := range []string{"coord", "peer"} {
+			for _, oc := range []struct{ o, ph string }{{"success", "during"}, {"error", "during"}, {"cancel", "during"},
+				{"cancel", "before"}, {"timeout", "before"}, {"silent", "before"}} {
+				if oc.o == "silent" && role == "coord" {
+					continue
+				}
+				if tier != "thorough" && np == 3 && (oc.o == "timeout" || oc.o == "silent") {
+					continue
+				}
+				for at := 0; at <= np; at++ {
+					out = append(out, Case{Kind: "tear", Role: role, Outcome: oc.o, Phase: oc.ph, NProc: np, At: at})
+				}
+			}
+		}
+	}
+	// the real Libp2pCommunication with faults at the streams
+	ncommw := 90
+	if tier == "thorough" {
+		ncommw = 1200
+	}
+	for i := 0; i < ncommw; i++ {
+		out = append(out, genCommW(r, i%3))
+	}
 	// free-running contention on one session id, with different numbers of OS threads
 	stormRounds := 400
 	if tier == "thorough" {
@@ -893,8 +938,10 @@ func gen(r *vgen.Rng, tier string) []Case {
 	}
 	if tier == "thorough" {
 		out = append(out, Case{Kind: "race", Rounds: 600})
+		out = append(out, Case{Kind: "racecomm", Workers: 16, Rounds: 600})
 	} else {
 		out = append(out, Case{Kind: "race", Rounds: 120})
+		out = append(out, Case{Kind: "racecomm", Workers: 12, Rounds: 120})
 	}
 	return out
 }
@@ -999,6 +1046,43 @@ func coq(c Case, o Obs) string {
 			return "CClosed " + vgen.ListOf(b.Closed, vgen.Nat)
 		})
 		return fmt.Sprintf("Comm %d%%nat ", nCP) + vgen.ListOf(c.Fails, vgen.Bool) + " " + ops + " " + obs
+	case "tear":
+		t := o.Tear
+		if t == nil {
+			t = &TearObs{}
+		}
+		dec := func(d string) string {
+			return map[string]string{"refused": "TRefused", "admitted": "TAdmitted", "waited": "TWaited", "": "TWaited"}[d]
+		}
+		return "Tear " + vgen.Nat(c.NProc) + " " + vgen.Nat(c.At) + " " + vgen.Bool(t.Parked) + " " + dec(t.Dec) + " " + dec(t.Final) +
+			" " + vgen.Nat(t.ClosedBefore) + " " + vgen.ListOf(t.StopsBefore, vgen.Nat) + " " + vgen.Nat(t.Late) + " " + vgen.Nat(t.LiveAtB) +
+			" " + vgen.Bool(t.RetParked) + " " + vgen.ListOf(t.StopsAfter, vgen.Nat) + " " + vgen.Nat(t.Closes) +
+			" " + vgen.Bool(t.Third) + " " + vgen.Bool(t.PendAfter)
+	case "commw":
+		var ops []string
+		for _, op := range c.WOps {
+			if op.Op == "send" {
+				for j, p := range op.Ps {
+					ops = append(ops, fmt.Sprintf("WSend %d%%nat %d%%nat %s", op.S, p, vgen.Bool(op.Scr[j].OpenFail)))
+				}
+			} else {
+				ops = append(ops, fmt.Sprintf("WClose %d%%nat", op.S))
+			}
+		}
+		obs := vgen.ListOf(o.WObs, func(b WObs) string {
+			if b.IsSend {
+				return "WSent " + vgen.ListOf(b.Opened, vgen.Nat) + " " + vgen.ListOf(b.Wrote, vgen.Nat) + " " + vgen.ListOf(b.Released, vgen.Nat)
+			}
+			return "WClosed " + vgen.ListOf(b.Released, vgen.Nat)
+		})
+		return fmt.Sprintf("CommW %d%%nat 3%%nat ", nCP) + vgen.ListOf(o.WFirstFail, vgen.Bool) + " " + vgen.List(ops) + " " + obs
+	case "racecomm":
+		rc := o.RC
+		if rc == nil {
+			rc = &RaceCommObs{}
+		}
+		return "RaceComm " + vgen.Nat(c.Workers) + " " + vgen.Nat(c.Rounds) + " " + vgen.Nat(rc.Reports) + " " + vgen.Nat(rc.Leftover) +
+			" " + vgen.Nat(rc.Unreleased) + " " + vgen.Nat(rc.Sessions) + " " + vgen.Bool(rc.Ran)
 	case "storm":
 		return "Storm " + vgen.Nat(c.N) + " " + vgen.ListOf(o.Rounds, func(r Round) string {
 			return vgen.Pair(vgen.ListOf(r.Refused, vgen.Bool), vgen.Nat(r.MaxLive))
@@ -1042,12 +1126,37 @@ func kind(c Case) string {
 				return "comm/close-fails"
 			}
 		}
+	case "tear":
+		if c.At == 0 {
+			return "tear/in-close-session/" + c.Outcome
+		}
+		return "tear/in-stop/" + c.Outcome
+	case "commw":
+		k := "commw"
+		of, wf := false, false
+		for _, op := range c.WOps {
+			for _, sc := range op.Scr {
+				of = of || sc.OpenFail
+				wf = wf || sc.FailFrom > 0
+			}
+		}
+		if wf {
+			k += "/write-fails"
+		}
+		if of {
+			k += "/open-fails"
+		}
+		return k
 	}
 	return c.Kind
 }
 
 func main() {
 	zerolog.SetGlobalLevel(zerolog.Disabled)
+	if v := os.Getenv("VERIF_C09_RACECOMM_CHILD"); v != "" {
+		raceCommChild(v)
+		return
+	}
 	if v := os.Getenv("VERIF_C09_RACE_CHILD"); v != "" {
 		var n int
 		fmt.Sscan(v, &n)
@@ -1070,9 +1179,11 @@ func main() {
 				return len(c.Ops) > 6
 			case "comm":
 				return len(c.COps) > 8
+			case "commw":
+				return len(c.WOps) > 8
 			}
 			return true
 		},
-		Rule: "admission: 2..8 overlapping Execute calls x {equal, distinct, mixed session ids} x {natural schedule, all requests held until none makes progress, then let through one critical section at a time}; storm: hundreds of rounds of 2..8 free-running requests for one session id released by a barrier, with 16/8/4/2 OS threads; sessions: role x outcome x phase x 1..3 processes, each followed by a restart of the same id; comm: random sequences of single-peer Broadcasts and CloseSessions on the real Libp2pCommunication over a fake host (two thirds with streams whose Close fails); streams: random AddStream/Stream/ReleaseStreams sequences on the real StreamManager, two thirds of them with streams whose Close fails, releases followed by fresh streams for the same session id; distinct = distinct input JSON; non-trivial = admission cases with at least two requests for one id, every session case, stream cases with more than 6 operations",
+		Rule: "admission: 2..8 overlapping Execute calls x {equal, distinct, mixed session ids} x {natural schedule, all requests held until none makes progress, then let through one critical section at a time}; storm: hundreds of rounds of 2..8 free-running requests for one session id released by a barrier, with 16/8/4/2 OS threads; sessions: role x outcome x phase x 1..3 processes, each followed by a restart of the same id; comm: random sequences of single-peer Broadcasts and CloseSessions on the real Libp2pCommunication over a fake host (two thirds with streams whose Close fails); tear: role x outcome x 1..3 processes x every point at which the teardown can be parked (inside CloseSession, inside Stop of each process), a second request for the same id issued there, a third after everything ended; commw: random sequences of Broadcasts to 1..3 peers and CloseSessions on the real Libp2pCommunication with scripted NewStream failures, failing first / later writes and failing Close (a third fault free); racecomm: 12 goroutines x 120 session lifetimes on one real Libp2pCommunication value plus sessions of the real Execute on it, under the race detector; streams: random AddStream/Stream/ReleaseStreams sequences on the real StreamManager, two thirds of them with streams whose Close fails, releases followed by fresh streams for the same session id; distinct = distinct input JSON; non-trivial = admission cases with at least two requests for one id, every session case, stream cases with more than 6 operations",
 	})
 }
